@@ -233,3 +233,17 @@ let () =
         Buffer.contents b
     | _ -> "BADARGS");
   register "pystrip" (function [s] -> escape (implode (py_strip (explode s))) | _ -> "BADARGS")
+
+(* ------------------------------------------------------------------ library (C08) *)
+let () =
+  register "libissues" (function
+    | [which] ->
+        let l = if which = "full" then library_issues else library_issues_fast in
+        String.concat "\x1f" (List.map (fun i -> implode (issue_text i)) l)
+    | _ -> "BADARGS");
+  register "librows" (function
+    | [] ->
+        let row t (r : row) = Printf.sprintf "%s\x1e%s\x1e%s\x1e%d\x1e%d\x1e%d\x1e%s" t (implode r.r_key) (implode r.r_name)
+            (int_of_nat r.r_config) (int_of_nat r.r_isomer) (int_of_nat r.r_lactole) (implode r.r_smiles) in
+        String.concat "\x1f" (List.map (row "p") pyranoses @ List.map (row "f") furanoses @ List.map (row "o") opens)
+    | _ -> "BADARGS")
